@@ -370,8 +370,6 @@ pub fn run_program(program: zydeco_dynamics::syntax::DynamicsProgram, stdin: &[u
                 }
                 | Ok(Step::Step(next)) => {
                     max_stack = max_stack.max(runtime.stack.len());
-                    // hooked-state invariant: the frame on top of the stack is well formed
-                    if let Some(SemCompu::Kont(_, _, _)) | Some(SemCompu::App(_)) | Some(SemCompu::Dtor(_)) | None = runtime.stack.last() {}
                     current = next;
                 }
             }
